@@ -243,3 +243,10 @@ def run(P, R, tier):
                 R.check(calls.count(es) == 1 and calls.count(ms) == 1, "SEQ.pass", key, f"{nm} arm of the {ms[-1].upper()} phase: one {es}, one {ms}", "", f"a pass of the {ms[-1].upper()} phase does not consist of exactly one {es} followed by one {ms} ({calls.count(es)} / {calls.count(ms)})", arm.lineno)
     from ..engines import idx as _idx
     _idx.check_class_select(P, R, "factor_analysis:FactorAnalysisBase._get_statistics_by_class_id")
+    from ..engines import dtype as _dt
+    n_dt = 0
+    for name in ("compute_accumulators_U", "compute_accumulators_V", "compute_accumulators_D", "_sum_n_statistics", "_sum_f_statistics", "_compute_fn_x_ih", "_compute_fn_y_i", "_compute_fn_z_i", "_compute_latent_x_per_class", "_latent_y_per_class", "_latent_z_per_class"):
+        k_ = "factor_analysis:FactorAnalysisBase." + name
+        if P.func(k_, required=False) is not None:
+            n_dt += _dt.check_function(P, R, k_, raw_attrs=("n", "sum_px", "sum_pxx"))
+    R.floor("DTYPE.raw sites (training kernels)", n_dt, 5)
